@@ -36,6 +36,14 @@ FULL_THOROUGH = {False: ["trmv", "trsv", "tpmv", "tpsv", "syr", "spr", "spmv"], 
                  True: ["trmv", "trsv", "tpmv", "tpsv", "her", "hpr", "hpmv"]}
 
 
+LAPACK = [
+    ("LU+Cholesky+triangular", ["Dgetrf", "Dgetf2", "Dgetrs", "Dgesv", "Dgetri", "Dpotrf", "Dpotf2", "Dpotrs", "Dpotri",
+                                "Dtrtri", "Dtrti2", "Dtrtrs"]),
+    ("QR+LQ", ["Dgeqrf", "Dgeqr2", "Dgelqf", "Dgelq2", "Dorgqr", "Dorg2r", "Dorglq", "Dorgl2"]),
+    ("apply-Q+reflectors", ["Dormqr", "Dorm2r", "Dormlq", "Dorml2", "Dlarft", "Dlarfb", "Dlarf"]),
+]
+
+
 def tset(xs):
     return "{" + ",".join(str(x) for x in xs) + "}"
 
@@ -92,7 +100,23 @@ def run(ctx):
                 scratch.append(cases)
         return f
 
+    # ---- R2: LAPACK tuples ----------------------------------------------------------------
+    def r2_lapack(fams, target, label):
+        def f():
+            cases = ctx.gen("contract/LapackContractGen.tla", "contract/LapackContractGen.cfg", workers=workers,
+                            name="R2 gen LAPACK " + label, timeout=2400,
+                            subst=dict(ROUTINES=sset(fams), SEED=ctx.seed, TARGET=target, EMIT="TRUE"))
+            for bn, _ in builds:
+                summ = ctx.replay(bins[bn], "contract", cases, ["build=" + bn], name="R2 replay LAPACK %s [%s]" % (label, bn))
+                check_vacuity(ctx, summ, "LAPACK " + label)
+            if thorough:
+                scratch.append(cases)
+        return f
+
     stages = [r1_addr, r1_table(False), r1_table(True)]
+    ltarget = 12000 if thorough else 700
+    for label, fams in LAPACK:
+        stages.append(r2_lapack(fams, ltarget, label))
     target = 6000 if thorough else 500
     for cx in (False, True):
         stages.append(r2_blas(cx, "sample", CPLX if cx else REAL, target, "sample"))
